@@ -33,7 +33,7 @@ def peer(r):
 
 
 def gen_dh(rng, tier, mult):
-    n = (60 if tier == "quick" else 1500) * mult
+    n = (1200 if tier == "quick" else 8000) * mult
     cases = [["g14"]]
     for ci in range(n):
         r = rng.fork("d%d" % ci)
